@@ -40,7 +40,9 @@ def run(ctx):
     base = [[call("fit_transform", [1, 2, 3]), call("transform", [1, 2, 3])],
             [call("fit", [1, 2, 3]), call("transform", [1, 2, 3]), call("fit_transform", [1, 2, 3])],
             [call("fit_transform", [2, 4, 1, 3]), call("fit", [2, 4, 1, 3]), call("transform", [2, 4, 1, 3])],
-            [call("fit", [3, 3, 1]), call("transform", [3, 3, 1]), call("fit_transform", [3, 3, 1])]]
+            [call("fit", [3, 3, 1]), call("transform", [3, 3, 1]), call("fit_transform", [3, 3, 1])],
+            # a batch that does not fill a whole number of internal blocks (e.g. 4 rows per block with memory_size="1k")
+            [call("fit_transform", [1, 2, 3, 4, 2, 1, 3]), call("transform", [1, 2, 3, 4, 2, 1, 3])]]
     jobs = []
     per = ctx.pick(2, 12)
     import os
